@@ -715,6 +715,20 @@ func (e *SpecEnv) call(x *SX) Term {
 		return Term{a.S, sInt}
 	case "off":
 		return sliceOff(e.eval(args[0]))
+	case "mapget", "maphas":
+		// mapget(m, k) / maphas(m, k): the value stored under key k in the Go map m, and whether k is present
+		a := e.eval(args[0])
+		if a.T.K != KMap {
+			e.bad("%s needs a map", name)
+		}
+		mt := a.T.Go.Underlying().(*types.Map)
+		k := e.evalAs(args[1], u.tc.sortOf(mt.Key()))
+		get, has := u.mapFuncs(mt)
+		ep := u.ghost(e.st, "mapEpoch", sInt)
+		if name == "maphas" {
+			return Term{fmt.Sprintf("(%s %s %s %s)", has, a.S, ep.S, k.S), sBool}
+		}
+		return Term{fmt.Sprintf("(%s %s %s %s)", get, a.S, ep.S, k.S), u.tc.sortOf(mt.Elem())}
 	case "emb":
 		// emb(p, F): the identity of the lock embedded as field F in the object p points to (see call.go: the
 		// same synthetic identity is handed to the contracts of the sync package)
